@@ -374,10 +374,13 @@ func (h *harness) boot(fromStore bool) {
 		}
 		time.Sleep(200 * time.Microsecond)
 	}
-	// the first report of a crew: what a host would persist before anything is processed
-	ch, err := c.GetChanged(h.ctx)
-	check(err)
-	h.fold(ch)
+	// The initial crew's first report seeds the store.  A crew booted FROM the store is not asked: a host does not ask
+	// either, it gets the first report with the first message it has processed (everything the boot touched is in it).
+	if !fromStore {
+		ch, err := c.GetChanged(h.ctx)
+		check(err)
+		h.fold(ch)
+	}
 }
 
 // fold applies reported changes to the store, through JSON as sio's own hosts do
